@@ -2,7 +2,7 @@
 # tools/confirm_seed.sh <Cxx>: in the agent's scratch worktree /tmp/seed_<Cxx>, confirm that
 # (1) with the change the pinned suite passes, (2) the demonstration fails with the change,
 # (3) the demonstration passes without it. Writes /tmp/seed_<Cxx>/confirm.log and prints a verdict.
-id="$1"; wt=/tmp/seed_$id; out=$wt/seed_out
+id="$1"; wt=${SEED_ROOT:-/tmp/seed}_$id; out=$wt/seed_out
 export CARGO_TARGET_DIR=$wt/target CARGO_NET_OFFLINE=true
 cd "$wt" || exit 2
 log=$wt/confirm.log; : > "$log"
